@@ -72,6 +72,24 @@ def run_variant(v):
             open(p, "w", newline="").write(s)
         evd = os.path.join(tmp, "evidence")
         env = dict(os.environ, OAS_EVIDENCE_DIR=evd, OAS_REPO=tmp)
+        if v["property"] == "ALL":
+            # behaviour-preserving refactoring: no claimed check may raise an alarm
+            import json
+
+            man = json.load(open(os.path.join(VERIF, "MANIFEST.json")))
+            alarms, errors = [], []
+            for c in man["checks"]:
+                pid = c["property_id"]
+                r = subprocess.run([os.path.join(VERIF, "check"), pid, "--repo", tmp, "--tier", "quick"], capture_output=True, text=True, env=env, cwd=VERIF)
+                if r.returncode == 1:
+                    alarms.append("%s: %s" % (pid, [l for l in (r.stdout + r.stderr).splitlines() if l.startswith("openaerostruct/")][:1]))
+                elif r.returncode != 0:
+                    errors.append(pid)
+            if alarms:
+                return v, "FALSE-ALARM", "; ".join(alarms)[:400], time.time() - t0
+            if errors and not v.get("allow_undecided"):
+                return v, "ANALYSIS-ERR", "checks that could no longer decide: %s" % errors, time.time() - t0
+            return v, "OK", "", time.time() - t0
         r = subprocess.run([os.path.join(VERIF, "check"), v["property"], "--repo", tmp, "--tier", v.get("tier", "quick")], capture_output=True, text=True, env=env, cwd=VERIF)
         out = r.stdout + r.stderr
         if v["kind"] == "break":
